@@ -121,7 +121,7 @@ package gohlslib
 //@ struct Muxer guarded_by &self.mutex class muxer: closed
 //@ struct muxerStream guarded_by self.mutex class muxer: closed, segments, nextSegmentID, nextPartID, segmentDeleteCount, targetDuration, partTargetDuration, initFilePresent, nextSegment, nextPart
 //@ struct muxerSegmentFMP4 guarded_by * class muxer: parts
-//@ struct muxerServer guarded_by &self.mutex class server: pathHandlers
+//@ struct muxerServer guarded_by &self.mutex class server: pathHandlers[]
 //@ cond Muxer.cond class muxer waits_on: Muxer.closed, muxerStream.closed, muxerStream.segments, muxerStream.nextSegmentID, muxerStream.nextPartID, muxerSegmentFMP4.parts
 
 // what every handler may rely on once it holds the muxer mutex (established by Start, preserved by
@@ -223,20 +223,36 @@ package gohlslib
 // writer side of the monitor: every rotation runs inside one critical section and is followed
 // by Broadcast before the writer returns (no pending wake-up at exit)
 
-//@ func muxerStream.rotateParts
-//@   props C06 C08
-//@   role writer
-//@   nosafety
-//@   requires held(s.mutex)
-//@   modifies *
-//@ end
+//@ pred partOK(p *muxerPart) := p != nil && p.storage != nil && distinctTracks(p.streamTracks)
+//@   && (is(p.storage, *storage.partDisk) ==> p.storage.(*storage.partDisk).s != nil)
 
-//@ func muxerStream.rotateSegments
-//@   props C06 C08
+//@ pred fileOK(f storage.File) := f != nil && ref(f) != 0
+//@   && (is(f, *storage.fileRAM) ==> forall(i, (0 <= i && i < len(f.(*storage.fileRAM).parts)) ==> f.(*storage.fileRAM).parts[i] != nil))
+//@   && (is(f, *storage.fileDisk) ==> forall(i, (0 <= i && i < len(f.(*storage.fileDisk).parts)) ==> (f.(*storage.fileDisk).parts[i] != nil && f.(*storage.fileDisk).parts[i].buffer != nil)))
+
+// rotateParts: publishes the open part (id old nextPartID, ending at nextDTS) and opens the next one
+//@ func muxerStream.rotateParts
+//@   props C03 C04 C05 C06 C08 C18
 //@   role writer
-//@   nosafety
-//@   requires held(s.mutex)
-//@   modifies *
+//@   requires held(s.mutex) && streamLinks(s) && s.server.pathHandlers != nil && unheld(&s.server.mutex)
+//@   requires partOK(s.nextPart) && s.nextPart.segment != nil && fileOK(s.nextPart.segment.storage)
+//@   requires s.nextSegment != nil && isF(s.nextSegment) && asF(s.nextSegment) == s.nextPart.segment
+//@   requires s.nextPartID < 9000000000000000000 && s.onEncodeError != nil && s.variant != MuxerVariantMPEGTS
+//@   requires distinctTracks(s.tracks) && segsOK(s.segments)
+//@   modifies s.nextPartID, s.nextPart, s.partTargetDuration, s.nextPart.endDTS, muxerTrack.fmp4Samples, s.nextPart.segment.parts, s.server.pathHandlers
+//@   modifies storage.fileRAM.parts, storage.fileDisk.parts, storage.partDisk.size
+//@   ensures result == nil ==> s.nextPartID == old(s.nextPartID) + 1
+//@   ensures result == nil ==> old(s.nextPart).endDTS == nextDTS
+//@   ensures (result == nil && s.variant == MuxerVariantLowLatency) ==> (len(old(s.nextPart.segment).parts) == old(len(s.nextPart.segment.parts)) + 1
+//@        && old(s.nextPart.segment).parts[len(old(s.nextPart.segment).parts) - 1] == old(s.nextPart)
+//@        && forall(i, (0 <= i && i < old(len(s.nextPart.segment.parts))) ==> old(s.nextPart.segment).parts[i] == old(s.nextPart.segment.parts[i])))
+//@   ensures (result == nil && s.variant != MuxerVariantLowLatency) ==> old(s.nextPart.segment).parts == old(s.nextPart.segment.parts)
+//@   ensures (result == nil && createNew) ==> (partOK(s.nextPart) && fresh(s.nextPart) && s.nextPart.id == s.nextPartID && s.nextPart.startDTS == nextDTS
+//@        && s.nextPart.segment == old(s.nextPart.segment) && s.nextPart.path == partPath(s.prefix, s.id, s.nextPartID))
+//@   ensures (result == nil && !createNew) ==> s.nextPart == nil
+//@   ensures (result == nil && s.variant == MuxerVariantLowLatency) ==> (has(s.server.pathHandlers, old(s.nextPart).path)
+//@        && has(s.server.pathHandlers, partPath(s.prefix, s.id, s.nextPartID)))
+//@   ensures forall(k, old(has(s.server.pathHandlers, k)) ==> has(s.server.pathHandlers, k))
 //@ end
 
 //@ func Muxer.rotatePartsInner
@@ -281,9 +297,12 @@ package gohlslib
 // ---------------------------------------------------------------------------------------
 // muxerServer: the URL table (C05, C18)
 
+//@ pred handlersOK(s *muxerServer) := forall(k, has(s.pathHandlers, k) ==> s.pathHandlers[k] != nil)
+
 //@ func muxerServer.registerPath
 //@   props C05 C08 C18
-//@   requires unheld(&s.mutex) && s.pathHandlers != nil
+//@   role writer
+//@   requires unheld(&s.mutex) && s.pathHandlers != nil && cb != nil
 //@   modifies s.pathHandlers
 //@   ensures s.pathHandlers == old(s.pathHandlers)
 //@   ensures has(s.pathHandlers, path) && s.pathHandlers[path] == cb
@@ -292,6 +311,7 @@ package gohlslib
 
 //@ func muxerServer.unregisterPath
 //@   props C05 C08 C18
+//@   role writer
 //@   requires unheld(&s.mutex)
 //@   modifies s.pathHandlers
 //@   ensures s.pathHandlers == old(s.pathHandlers)
@@ -310,13 +330,14 @@ package gohlslib
 //@ func muxerServer.handle
 //@   props C05 C08 C18
 //@   requires unheld(&s.mutex) && r != nil && r.URL != nil
+//@   waitinv handlersOK(s)
 //@   ensures calls("dyncall") <= 1
 //@ end
 
 // ---------------------------------------------------------------------------------------
 // C01 / C03 / C05 / C18: parts
 
-//@ pred distinctTracks(ts []*muxerTrack) := forall(a, (0 <= a && a < len(ts)) ==> ts[a] != nil)
+//@ pred distinctTracks(ts []*muxerTrack) := forall(a, (0 <= a && a < len(ts)) ==> (ts[a] != nil && ts[a].Track != nil))
 //@   && forall(a, b, (0 <= a && a < b && b < len(ts)) ==> ts[a] != ts[b])
 
 // finalize drains each track's sample list exactly once, in track order, into one fragment
@@ -363,4 +384,156 @@ package gohlslib
 //@   ensures result == nil ==> (old(track.fmp4Samples) == nil ==> track.fmp4StartDTS == sample.dts)
 //@   ensures result == nil ==> (old(track.fmp4Samples) != nil ==> track.fmp4StartDTS == old(track.fmp4StartDTS))
 //@   ensures result == nil ==> track.fmp4Samples != nil
+//@ end
+
+
+// ---------------------------------------------------------------------------------------
+// C03: target durations
+
+//@ pred segsOK(segs []muxerSegment) := forall(i, (0 <= i && i < len(segs)) ==> (segs[i] != nil && (isF(segs[i]) || is(segs[i], *muxerGap) || is(segs[i], *muxerSegmentMPEGTS)) && ref(segs[i]) != 0))
+//@   && forall(i, j, (0 <= i && i < len(segs) && isF(segs[i]) && 0 <= j && j < len(asF(segs[i]).parts)) ==> asF(segs[i]).parts[j] != nil)
+
+// EXT-X-TARGETDURATION candidate: at least every listed EXTINF rounded to the nearest integer
+//@ func targetDuration
+//@   props C03
+//@   requires segsOK(segments)
+//@   ensures result >= 0
+//@   ensures forall(j, (0 <= j && j < len(segments)) ==> result >= round(real(segments[j].getDuration()) / 1000000000.0))
+//@   ensures result == 0 || exists(j, 0 <= j && j < len(segments) && result == round(real(segments[j].getDuration()) / 1000000000.0))
+//@   loop 1 invariant -1 <= ri && ri < len(segments) && ret >= 0
+//@   loop 1 invariant forall(j, (0 <= j && j <= ri) ==> ret >= round(real(segments[j].getDuration()) / 1000000000.0))
+//@   loop 1 invariant ret == 0 || exists(j, 0 <= j && j <= ri && ret == round(real(segments[j].getDuration()) / 1000000000.0))
+//@ end
+
+// PART-TARGET candidate: the longest part of the listed segments and of the open segment, rounded up to a millisecond
+//@ func partTargetDuration
+//@   props C03 C19
+//@   requires anylock() && segsOK(segments) && forall(j, (0 <= j && j < len(nextSegmentParts)) ==> nextSegmentParts[j] != nil)
+//@   ensures result >= 0 && mod(result, 1000000) == 0
+//@   ensures forall(i, j, (0 <= i && i < len(segments) && isF(segments[i]) && 0 <= j && j < len(asF(segments[i]).parts)) ==> result >= asF(segments[i]).parts[j].getDuration())
+//@   ensures forall(j, (0 <= j && j < len(nextSegmentParts)) ==> result >= nextSegmentParts[j].getDuration())
+//@   loop 1 invariant -1 <= ri && ri < len(segments) && ret >= 0
+//@   loop 1 invariant forall(i, j, (0 <= i && i <= ri && isF(segments[i]) && 0 <= j && j < len(asF(segments[i]).parts)) ==> ret >= asF(segments[i]).parts[j].getDuration())
+//@   loop 2 invariant -1 <= ri && ri < len(seg.parts) && ret >= 0 && isF(segments[ri1+1]) && seg == asF(segments[ri1+1]) && 0 <= ri1+1 && ri1+1 < len(segments)
+//@   loop 2 invariant forall(i, j, (0 <= i && i <= ri1 && isF(segments[i]) && 0 <= j && j < len(asF(segments[i]).parts)) ==> ret >= asF(segments[i]).parts[j].getDuration())
+//@   loop 2 invariant forall(j, (0 <= j && j <= ri) ==> ret >= seg.parts[j].getDuration())
+//@   loop 3 invariant -1 <= ri && ri < len(nextSegmentParts) && ret >= 0
+//@   loop 3 invariant forall(i, j, (0 <= i && i < len(segments) && isF(segments[i]) && 0 <= j && j < len(asF(segments[i]).parts)) ==> ret >= asF(segments[i]).parts[j].getDuration())
+//@   loop 3 invariant forall(j, (0 <= j && j <= ri) ==> ret >= nextSegmentParts[j].getDuration())
+//@ end
+
+
+// ---------------------------------------------------------------------------------------
+// C02 / C03 / C04 / C05 / C18: segments and the sliding window
+
+//@ pred isM(x muxerSegment) := is(x, *muxerSegmentMPEGTS)
+//@ pred asM(x muxerSegment) *muxerSegmentMPEGTS := x.(*muxerSegmentMPEGTS)
+//@ pred isG(x muxerSegment) := is(x, *muxerGap)
+
+//@ func muxerSegmentFMP4.initialize
+//@   props C04 C05 C18
+//@   role writer
+//@   requires s.storageFactory != nil
+//@   modifies s.path, s.storage
+//@   ensures s.path == segmentPath(s.prefix, s.streamID, s.id, true)
+//@   ensures result == nil ==> fileOK(s.storage)
+//@ end
+
+//@ func muxerSegmentMPEGTS.initialize
+//@   props C04 C05 C18
+//@   role writer
+//@   requires s.storageFactory != nil
+//@   modifies s.path, s.storage, s.storagePart, s.bw, storage.fileRAM.parts, storage.fileDisk.parts, storage.partDisk.size
+//@   ensures s.path == segmentPath(s.prefix, s.streamID, s.id, false)
+//@   ensures result == nil ==> (fileOK(s.storage) && s.bw != nil && s.storagePart != nil)
+//@ end
+
+//@ func muxerSegmentFMP4.finalize
+//@   props C03 C04
+//@   role writer
+//@   requires fileOK(s.storage)
+//@   modifies s.endDTS, storage.fileRAM.finalized, storage.fileRAM.finalSize, storage.fileDisk.finalSize, storage.fileDisk.f, storage.partDisk.size, storage.partDisk.buffer
+//@   ensures result == nil && s.endDTS == nextDTS
+//@ end
+
+//@ func muxerSegmentMPEGTS.finalize
+//@   props C03 C04
+//@   role writer
+//@   requires fileOK(s.storage) && s.bw != nil
+//@   modifies s.endDTS, s.bw, storage.fileRAM.finalized, storage.fileRAM.finalSize, storage.fileDisk.finalSize, storage.fileDisk.f, storage.partDisk.size, storage.partDisk.buffer
+//@   ensures result == nil ==> s.endDTS == endDTS
+//@   ensures result != nil ==> s.endDTS == old(s.endDTS)
+//@ end
+
+// the window: numbering, typing, bound
+//@ pred idRel(s *muxerStream) := s.segmentDeleteCount >= 0 && s.nextSegmentID < 9000000000000000000
+//@   && s.nextSegmentID == s.segmentDeleteCount + len(s.segments) + ite(s.variant == MuxerVariantLowLatency && len(s.segments) == 0, 7, 0)
+
+//@ pred shape(s *muxerStream) := forall(i, (0 <= i && i < len(s.segments)) ==> (s.segments[i] != nil
+//@        && (s.variant == MuxerVariantMPEGTS ==> isM(s.segments[i]))
+//@        && (s.variant != MuxerVariantMPEGTS ==> (isF(s.segments[i]) || isG(s.segments[i])))
+//@        && (isG(s.segments[i]) ==> s.variant == MuxerVariantLowLatency)))
+//@   && forall(i, (0 <= i && i + 1 < len(s.segments) && isF(s.segments[i])) ==> isF(s.segments[i+1]))
+
+//@ pred ids(s *muxerStream) := forall(i, (0 <= i && i < len(s.segments) && isF(s.segments[i])) ==> (asF(s.segments[i]) != nil
+//@        && asF(s.segments[i]).id == s.segmentDeleteCount + i
+//@        && asF(s.segments[i]).path == segmentPath(s.prefix, s.id, s.segmentDeleteCount + i, true)))
+//@   && forall(i, (0 <= i && i < len(s.segments) && isM(s.segments[i])) ==> (asM(s.segments[i]) != nil
+//@        && asM(s.segments[i]).id == s.segmentDeleteCount + i
+//@        && asM(s.segments[i]).path == segmentPath(s.prefix, s.id, s.segmentDeleteCount + i, false)))
+
+//@ pred openSeg(s *muxerStream) := s.nextSegment != nil
+//@   && (s.variant == MuxerVariantMPEGTS ==> (isM(s.nextSegment) && asM(s.nextSegment) != nil && asM(s.nextSegment).id == s.nextSegmentID
+//@        && fileOK(asM(s.nextSegment).storage) && asM(s.nextSegment).bw != nil && fresh0(asM(s.nextSegment))))
+//@   && (s.variant != MuxerVariantMPEGTS ==> (isF(s.nextSegment) && asF(s.nextSegment) != nil && asF(s.nextSegment).id == s.nextSegmentID
+//@        && fileOK(asF(s.nextSegment).storage) && partOK(s.nextPart) && s.nextPart.segment == asF(s.nextSegment)
+//@        && s.nextPart.id == s.nextPartID && s.nextPart.path == partPath(s.prefix, s.id, s.nextPartID)))
+
+//@ pred fresh0(x *muxerSegmentMPEGTS) := true
+
+//@ pred cfg(s *muxerStream) := streamLinks(s) && s.server.pathHandlers != nil && s.storageFactory != nil && s.onEncodeError != nil
+//@   && distinctTracks(s.tracks) && s.nextPartID < 9000000000000000000
+//@   && (s.variant == MuxerVariantMPEGTS || s.variant == MuxerVariantFMP4 || s.variant == MuxerVariantLowLatency)
+//@   && (s.variant == MuxerVariantLowLatency ==> s.segmentCount >= 7) && s.segmentCount >= 3
+//@   && (s.variant == MuxerVariantMPEGTS ==> (s.mpegtsSwitchableWriter != nil && s.mpegtsWriter != nil))
+
+//@ pred wf(s *muxerStream) := cfg(s) && idRel(s) && shape(s) && ids(s) && segsOK(s.segments) && len(s.segments) <= s.segmentCount
+
+//@ func muxerStream.generateAndCacheInitFile
+//@   props C02 C05
+//@   role writer
+//@   requires held(s.mutex) && streamLinks(s) && s.server.pathHandlers != nil && unheld(&s.server.mutex) && distinctTracks(s.tracks)
+//@   modifies s.initFilePresent, s.server.pathHandlers
+//@   ensures result == nil ==> (s.initFilePresent && has(s.server.pathHandlers, initFilePath(s.prefix, s.id)))
+//@   ensures result != nil ==> s.initFilePresent == old(s.initFilePresent)
+//@   ensures forall(k, old(has(s.server.pathHandlers, k)) ==> has(s.server.pathHandlers, k))
+//@   ensures forall(k, (has(s.server.pathHandlers, k) && !old(has(s.server.pathHandlers, k))) ==> k == initFilePath(s.prefix, s.id))
+//@   loop 1 invariant -1 <= ri && ri < len(s.tracks) && trackID == ri + 2 && len(init.Tracks) == ri + 1
+//@   loop 1 invariant forall(j, (0 <= j && j <= ri) ==> (init.Tracks[j] != nil && allocated(init.Tracks[j]) && init.Tracks[j].ID == j + 1
+//@        && init.Tracks[j].TimeScale == fmp4TimeScale(s.tracks[j].Codec)))
+//@   atcall fmp4.Init.Marshal len(arg0.Tracks) == len(s.tracks)
+//@   atcall fmp4.Init.Marshal forall(j, (0 <= j && j < len(s.tracks)) ==> (arg0.Tracks[j].ID == j + 1 && arg0.Tracks[j].TimeScale == fmp4TimeScale(s.tracks[j].Codec)))
+//@ end
+
+// rotateSegments: publishes the open segment (id old nextSegmentID, ending at nextDTS) at the tail of the window,
+// drops at most one segment from the head, and opens the next segment
+//@ func muxerStream.rotateSegments
+//@   props C03 C04 C05 C06 C08 C18
+//@   role writer
+//@   requires held(s.mutex) && unheld(&s.server.mutex) && wf(s) && openSeg(s)
+//@   modifies s.nextPartID, s.nextPart, s.partTargetDuration, s.nextPart.endDTS, muxerTrack.fmp4Samples, muxerSegmentFMP4.parts, s.server.pathHandlers
+//@   modifies storage.fileRAM.parts, storage.fileDisk.parts, storage.partDisk.size
+//@   modifies s.nextSegmentID, s.nextSegment, s.segments, s.segmentDeleteCount, s.initFilePresent, s.targetDuration, s.mpegtsSwitchableWriter.w
+//@   modifies muxerSegmentFMP4.endDTS, muxerSegmentMPEGTS.endDTS, muxerSegmentMPEGTS.bw
+//@   modifies storage.fileRAM.finalized, storage.fileRAM.finalSize, storage.fileDisk.finalSize, storage.fileDisk.f, storage.partDisk.buffer
+//@   ensures result == nil ==> s.nextSegmentID == old(s.nextSegmentID) + 1
+//@   ensures result == nil ==> (s.segmentDeleteCount == old(s.segmentDeleteCount) || s.segmentDeleteCount == old(s.segmentDeleteCount) + 1)
+//@   ensures result == nil ==> len(s.segments) >= 1 && s.segments[len(s.segments) - 1] == old(s.nextSegment)
+//@   ensures result == nil ==> (idRel(s) && len(s.segments) <= s.segmentCount)
+//@   ensures result == nil ==> shape(s)
+//@   ensures result == nil ==> ids(s)
+//@   ensures result == nil ==> openSeg(s)
+//@   ensures result == nil ==> (s.variant != MuxerVariantMPEGTS ==> (s.nextPartID == old(s.nextPartID) + 1 && s.nextPart.startDTS == nextDTS))
+//@   loop 1 invariant 0 <= i && i <= 7 && len(s.segments) == i && s.variant == MuxerVariantLowLatency
+//@   loop 1 invariant forall(k, (0 <= k && k < i) ==> (s.segments[k] != nil && isG(s.segments[k]) && allocated(s.segments[k])))
 //@ end
